@@ -141,7 +141,21 @@ def main():
             sc = np.asarray(l.get_quantizers()[0].scale, dtype=np.float64)
             wts = [wts[0] / np.broadcast_to(sc, wts[0].shape)] + wts[1:]
           p, pg = stats(pre)
-          ev = {"k": "layer", "meta": meta, "pattern": pname, "layer": l.name, "cls": l.__class__.__name__,
+          # the published report (QTools._output_dict / the JSON file) states int_bits INCLUDING the sign bit for
+          # fixed-point types; it has to describe the same types as the map
+          jd = q._output_dict.get(l.name, {})
+          jok = 1
+          for key, obj in (("accumulator", get("accumulator").output), ("weight_quantizer", get("weight_quantizer")),
+                           ("bias_quantizer", get("bias_quantizer") if l.use_bias else None),
+                           ("input_quantizer_list", get("input_quantizer_list")[0])):
+            je = jd.get(key)
+            je = je[0] if isinstance(je, list) and je else je
+            if obj is None or not je or int(getattr(obj, "mode", -1)) != 0 or getattr(obj, "is_po2", 0) or obj.is_floating_point:
+              continue
+            if (int(je.get("bits", -1)) != int(obj.bits) or int(bool(je.get("is_signed"))) != int(bool(obj.is_signed)) or
+                int(je.get("int_bits", -99)) != int(obj.int_bits) + int(bool(obj.is_signed))):
+              jok = 0
+          ev = {"k": "layer", "jok": jok, "meta": meta, "pattern": pname, "layer": l.name, "cls": l.__class__.__name__,
                 "acc": reported(acc_item.output), "auto": int(auto), "wt": reported(get("weight_quantizer")),
                 "it": reported(get("input_quantizer_list")[0]), "hasb": int(bool(l.use_bias)),
                 "bt": reported(get("bias_quantizer")) if l.use_bias else reported(get("weight_quantizer")),
